@@ -235,6 +235,63 @@ def cold_runs(si, n, profile, part):
                     part["violations"].append({"sig": ["differs-from-alone", "cold-start", "stage%d" % stage], "what": "`%s`, evaluated while another thread's first engine call (%s) was inside the lazy start-up (stage %d), gives %s but alone %s" % (t_, a_first["op"], stage, json.dumps({k: v[0] for k, v in diff.items()})[:300], json.dumps({k: v[1] for k, v in diff.items()})[:300]), "replay": {"steps": steps}})
 
 
+def deep_concurrent_runs(si, n, profile, part):
+    """T threads, each on its own context, evaluate a deeply nested program over and over at the same time (they start together at a
+    rendezvous and nothing else synchronises them, so no thread ever waits for another): every evaluation must return what the
+    program gives alone"""
+    wd = common.workdir(PROP)
+    rnd = common.rng(PROP, "deepconc", si)
+    for h in range(n):
+        T = rnd.choice([4, 8, 16, 16, 32])
+        D = rnd.choice([40, 64, 100, 130, 260, 300])
+        shape = (h + si) % 4
+        inner = "gatef(1)"
+        if shape == 0:
+            text = "1 + (" * D + inner + ")" * D
+        elif shape == 1:
+            text = "[" * D + inner + "]" * D
+        elif shape == 2:
+            text = "true ? (" * D + inner + ") : 0" * D
+        else:
+            text = "idf(" * D + inner + ")" * D
+        regs = lambda g: [{"op": "reg_fn", "name": "gatef", "beh": dict({"id": 30, "ret": "last"}, **({"gate": g} if g else {}))}, {"op": "reg_fn", "name": "idf", "beh": {"id": 31, "ret": "last"}}]
+        r0 = common.run_vexec([{"op": "exec", "text": "1 + 1"}] + regs(0) + [{"op": "ctx", "id": 2, "vars": {}}, {"op": "exec", "ctx": 2, "text": text, "nosnap": True}], wd, "deep-alone-%d-%d-%s" % (si, h, profile), profile, timeout=120)
+        if not (r0.ended and r0.steps()):
+            part["inconclusive"].append("deep program alone did not finish")
+            continue
+        want = r0.steps()[-1].get("res")
+        R = 24
+        plans = [[{"op": "ctx", "id": 2 * (t + 1), "vars": {}}, {"op": "meet", "k": 1, "n": T}] + [{"op": "exec", "ctx": 2 * (t + 1), "text": text, "nosnap": True} for _ in range(R)] for t in range(T)]
+        steps = [{"op": "exec", "text": "1 + 1"}] + regs(0) + [{"op": "threads", "plans": plans}]
+        run = common.run_vexec(steps, wd, "deep-%d-%d-%s" % (si, h, profile), profile, timeout=300)
+        kind_, detail = common.crash_verdict(run, "concurrent deep evaluations")
+        if kind_ is not None or not run.ended:
+            if kind_ in ("signal", "hang", "deadlock"):
+                part["violations"].append({"sig": ["crash", kind_, "deepconc"], "what": "%d threads x nesting depth %d: %s" % (T, D, detail), "replay": {"steps": steps}})
+            else:
+                part["inconclusive"].append("%s %s" % (kind_, detail))
+            continue
+        if run.gave_up:
+            part["inconclusive"].append("concurrent deep evaluations: start rendezvous timed out (machine overloaded); run discarded")
+            continue
+        th = run.steps()[-1].get("threads", [])
+        for t, recs in enumerate(th):
+            if not isinstance(recs, list) or len(recs) < 2 + R:
+                part["violations"].append({"sig": ["thread-panicked", "deepconc"], "what": "a thread evaluating a depth-%d program panicked" % D, "replay": {"steps": steps}})
+                continue
+            badr = None
+            for r_ in recs[2:]:
+                part["evaluations"] += 1
+                part["counts"]["deep_concurrent_evaluations"] = part["counts"].get("deep_concurrent_evaluations", 0) + 1
+                if r_.get("res") != want and badr is None:
+                    badr = r_
+            if badr is None:
+                part["classes"].add("deepconc:shape%d:T%d:D%d" % (shape, T, D))
+            else:
+                part["violations"].append({"sig": ["differs-when-concurrent", "deepconc", "shape%d" % shape], "what": "%d threads, each on its own context, evaluate `%s...` (nesting depth %d) %d times each at the same time: thread %d got %s, alone the program gives %s" % (T, text[:24], D, R, t, json.dumps(badr.get("res"))[:200], json.dumps(want)[:200]), "replay": {"steps": steps}})
+                break
+
+
 def run_shard(desc):
     si, nhist, profile = desc
     rnd = common.rng(PROP, si)
@@ -242,6 +299,10 @@ def run_shard(desc):
     part = {"evaluations": 0, "classes": set(), "violations": [], "samples": [], "abstained": 0, "inconclusive": [], "counts": {"histories": 0, "alone_runs": 0, "sequential_steps": 0, "threaded_steps": 0, "kept_ast_runs": 0, "parse_only_steps": 0}}
     if 700 <= si < 800:
         cold_runs(si, nhist, profile, part)
+        part["classes"] = sorted(part["classes"])
+        return part
+    if 600 <= si < 700:
+        deep_concurrent_runs(si, nhist, profile, part)
         part["classes"] = sorted(part["classes"])
         return part
     if 800 <= si < 900:
@@ -425,6 +486,7 @@ def run(rep, tier):
     shards += [(i, nh // 16, "release" if i % 2 else "verifdbg") for i in range(16)]
     shards += [(700 + i, 10 if tier == "quick" else 200, "release" if i % 2 else "verifdbg") for i in range(16)]  # evaluations during another thread's first use
     shards += [(800 + i, 1, "release" if i % 2 else "verifdbg") for i in range(16)] + [(816 + i, 1, "verifdbg" if i % 2 else "release") for i in range(16)]  # nested evaluations on a second context
+    shards += [(600 + i, 6 if tier == "quick" else 100, "release" if i % 2 else "verifdbg") for i in range(8)]  # many threads deep inside nested programs at once
     for part in common.pmap(run_shard, shards):
         rep.merge(part)
     rep.floor = 5000
